@@ -13,7 +13,7 @@ from extract import ExtractionError
 STMT = "prqlc/prqlc-parser/src/parser/stmt.rs"
 PR_STMT = "prqlc/prqlc-parser/src/parser/pr/stmt.rs"
 
-LABELS = ["ST1"]
+LABELS = ["ST1", "ST2"]
 FUNCTIONS = []
 RLIMIT = 30
 
@@ -61,6 +61,15 @@ def build(X):
         if left:
             raise ExtractionError("module_contents: the condition of the validate closure uses something the unit has no characterization for: %s" % left[:80])
         rejected = cond.replace("&&", " && ").replace("||", " || ")
+    ma = re.search(r"let annotation = (.*?);\n", src, re.S)
+    if not ma:
+        raise ExtractionError("module_contents: `let annotation = ..;` not found")
+    achain = "".join(ma.group(1).split())
+    mna = re.match(r"^new_line\(\)\.repeated\(\)(?:\.at_least\((\d+)\))?\.collect::<Vec<_>>\(\)\.ignore_then\(", achain)
+    if not mna:
+        raise ExtractionError("module_contents: annotation does not start with `new_line().repeated()[.at_least(N)].collect::<Vec<_>>().ignore_then(`: %s" % achain[:120])
+    ann_at_least = int(mna.group(1) or 0)
+    f.rewrites.append({"rule": "table", "what": "annotation read as: at least %d new line(s) in front of an annotation" % ann_at_least})
     f.rewrites.append({"rule": "table", "what": "stmt_kind read as: at least %d new line(s) in front of a statement; rejected(new_lines, kind) = %s" % (at_least, rejected)})
     lines = ["", "#![allow(unused_imports, dead_code, unused_parens)]", "use vstd::prelude::*;", "verus! {",
              "pub enum StmtKind { %s }" % ", ".join(variants),
@@ -68,5 +77,8 @@ def build(X):
              "pub open spec fn rejected(new_lines: int, kind: StmtKind) -> bool { %s }" % rejected,
              "// C18: directly under the header line (no new line of its own) every kind of declaration is accepted",
              "proof fn first_declaration(kind: StmtKind) ensures min_new_lines() == 0 && !rejected(0, kind), {} // @ST1",
+             "pub open spec fn min_new_lines_annotation() -> int { %d }" % ann_at_least,
+             "// .. and so is a declaration that carries an annotation (a recorded finding of the unchanged tree: the annotation asks for a line break of its own)",
+             "proof fn first_annotation() ensures min_new_lines_annotation() == 0, {} // @ST2",
              "} // verus!", "fn main() {}", ""]
     return "\n".join(lines)
